@@ -23,8 +23,9 @@ func run(e *harness.Env) {
 		"{JSONL,JSON,CSV,TSV} x CSV delimiter{comma,semicolon,pipe,tab,non-ASCII} x Flatten x MetadataFields{nil,[],VectorDB list,custom with unknown name} x IncludeMetadata x IncludeText x header x pretty x column names x IncludeEmbeddings, plus ToJSON/ToJSONL/ToCSV/ToTSV; " +
 		"(batch) collections of 0..3 chunks x batch size {1,2,n,n+1,0,-1} x 6 configurations; (stream) WriteChunk/Close per format; " +
 		"(vdb) PrepareForVectorDB/Pinecone/Chroma/Weaviate x embedding layouts {full,nil,short,long,holes} x class names; " +
+		"(file) every ordered pair (thorough: also every ordered triple over half of the jobs) of export jobs [6 collections x 7 configurations x entry point {Exporter.ExportToFile, ChunkCollection.ExportToFile, BatchExporter.ExportToFiles size 1 and 2}] written one after the other onto ONE path in a private temp dir, the file(s) read back after every step; " +
 		"(filter) collections of <=3 (quick) / <=4 (thorough) chunks over 8 chunk kinds x every FilterBy*/Search/Filter predicate with boundary arguments, and every two-filter chain on collections of <=2 (quick) / <=3 (thorough) chunks. " +
-		"(sibling) every ordered pair of the predicates applied to the SAME source collection of <=2 (quick) / <=3 (thorough) chunks, thorough also every ordered triple of 20 family-covering predicates: all results judged only after all calls, again after exporting a sibling, after filtering the result further and after Search on the source, and through ToJSONL/ToJSON of the result. " +
+		"(sibling) every ordered pair of the predicates applied to the SAME source collection of <=2 (quick) / <=3 (thorough) chunks, thorough also every ordered triple of 21 family-covering predicates: all results judged only after all calls, again after exporting a sibling, after filtering the result further and after Search on the source, and through ToJSONL/ToJSON of the result. " +
 		"distinct = distinct case descriptors; non-trivial = anything but a single plain chunk / the identity filter"
 	e.Assumptions = []string{
 		"encoding/json's decoder is a conforming JSON parser; encoding/csv is a conforming reader when no CR is involved",
@@ -37,6 +38,7 @@ func run(e *harness.Env) {
 	batchSpace(e)
 	streamSpace(e)
 	vdbSpace(e)
+	fileSpace(e)
 	filterSpace(e)
 	siblingSpace(e)
 }
